@@ -1385,18 +1385,39 @@ Proof.
   intros P St N R. unfold thread_step. cbv beta zeta. rewrite P, St, N, R. cbn. split; [intros o|]; reflexivity.
 Qed.
 
+(** * 10d. The background renewal is not tied to the handshake that started it: its issuer call
+    cannot be cancelled before its own 5-minute deadline (context.Background), and no other step of a
+    background worker has a cancellation alternative at all; the return of the handshake that spawned
+    it is a step of another goroutine ([frame]) *)
+Theorem background_renewal_not_cancellable_early s t th ch c st :
+  t_pc th = PRenIssue ch c true st -> now s < st + t_renew_bg_ctx -> thread_step s t th ACancel = None.
+Proof.
+  intros P N. unfold thread_step. cbv beta zeta. rewrite P. cbn [negb orb].
+  destruct (st + t_renew_bg_ctx <=? now s) eqn:E; [apply Z.leb_le in E; lia|reflexivity].
+Qed.
+Theorem background_worker_other_steps_not_cancellable s t th :
+  (exists ch c st, t_pc th = PRenGate ch c true st) \/ (exists ch c st, t_pc th = PRenLoad ch c true st) \/
+  (exists ch c, t_pc th = PRenReload ch c true) \/ (exists ch c r, t_pc th = PRenUnblock ch c r true) ->
+  thread_step s t th ACancel = None.
+Proof.
+  intros [(ch & c & st & P)|[(ch & c & st & P)|[(ch & c & P)|(ch & c & r & P)]]];
+    unfold thread_step; cbv beta zeta; rewrite P; reflexivity.
+Qed.
+
 (** * The statement shapes of the source the LTS was written against (translator item
     c13EmitC13Shape): every re-entry into getCertDuringHandshake passes loadOrObtainIfNecessary =
     false; each of the three release sections is Lock; close(wait); delete(map, name); Unlock (one
     critical section = the atomic steps [rel_l] / [rel_o]); unblockWaiters is called once in
     obtainOnDemandCertificate (after ObtainCertAsync, right before the return) and twice in
     renewDynamicCertificate (denial path, normal path), never deferred; serve-current iff
-    timeLeft > 0 && !revoked; background renewal iff timeLeft > 0.  By computation. *)
+    timeLeft > 0 && !revoked; background renewal iff timeLeft > 0, under a context derived from
+    context.Background() (not from the handshake's).  By computation. *)
 Lemma source_shape :
   hs_reentry_load_args = [[false]; [false]; [false]] /\
   hs_release_shapes = [[1; 2; 3; 4]; [1; 2; 3; 4]; [1; 2; 3; 4]]%nat /\
   hs_unblock_call_counts = [1; 2]%nat /\
   hs_obtain_unblock_then_return = true /\
   hs_serve_current_iff_unexpired_unrevoked = true /\
-  hs_background_iff_unexpired = true.
+  hs_background_iff_unexpired = true /\
+  hs_background_ctx_is_background = true.
 Proof. repeat split. Qed.
